@@ -60,7 +60,7 @@ def _load():
 
 @prop("C09",
       technique="static: Pratt-table extraction from typed HIR vs documented order; grammar/table/mapper three-way set agreement; PEG structure lints on pest_meta AST; positional data-flow of operands",
-      explanation="Decides the structural clauses of C09: (T-PRATT) the operator table extracted from the PrattParser::new().op(..) chain equals the documented levels and associativities; (S-3WAY) grammar binary_op/unary_op alternatives = Pratt-table rules = rules handled by map_infix/map_prefix, with a name-preserving Rule->BinOp/UnOp mapping; (G-*) operator spellings and aliases live in the same grammar rule, alphabetic operators and keywords are atomic with an identifier-boundary look-ahead, no ordered-choice alternative shadows a later one, implicit_mul is a leaf tried before parenthesis/primitive, exp has the token shape the Pratt loop expects; (H-IMPLICIT) implicit multiplication folds left with Mul only; (H-INTOEXP) each operator is lowered to the same-named Exp form with lhs/rhs in place; (G-TAG) the converters fetch the parts of a pair by node tag: for each of the 37 (rule, tag) declarations, either no pair that can precede the intended one in document order (an earlier sibling element, or any sibling when the element may be absent or may match without producing a pair) can derive a nested pair with the same tag, or every converter that reads that tag for that rule searches the direct children only -- pest's find_first_tagged searches nested pairs first-come; every group of tag look-ups on one receiver must be the direct tag set of some grammar rule. NOT decided: pest's PEG/Pratt engine, numeric evaluation of operators.",
+      explanation="Decides the structural clauses of C09: (T-PRATT) the operator table extracted from the PrattParser::new().op(..) chain equals the documented levels and associativities; (S-3WAY) grammar binary_op/unary_op alternatives = Pratt-table rules = rules handled by map_infix/map_prefix, with a name-preserving Rule->BinOp/UnOp mapping; (G-*) operator spellings and aliases live in the same grammar rule, alphabetic operators and keywords are atomic with an identifier-boundary look-ahead, no ordered-choice alternative shadows a later one, implicit_mul is a leaf tried before parenthesis/primitive, exp has the token shape the Pratt loop expects; (H-IMPLICIT) implicit multiplication folds left with Mul only; (H-INTOEXP) each operator is lowered to the same-named Exp form with lhs/rhs in place; (G-TAG) the converters fetch the parts of a pair by node tag: for each of the 37 (rule, tag) declarations, either no pair that can precede the intended one in document order (an earlier sibling element, or any sibling when the element may be absent or may match without producing a pair) can derive a nested pair with the same tag, or every converter that reads that tag for that rule searches the direct children only -- pest's find_first_tagged searches nested pairs first-come; every group of tag look-ups on one receiver must be the direct tag set of some grammar rule; (CONVERT-EXP) ~700 fully parenthesised expression texts written from operator trees (every parent/child operator pair and side, arithmetic grandchild chains, leaves alternating identifiers and numeric literals) plus the documented implicit-multiplication and sign forms are matched by the model of pest's matcher and converted by the crate's own parse_exp / parse_exp_leaf (closures included) evaluated from their typed HIR: the PreExp must be the tree the text was written from. NOT decided: pest's PEG/Pratt engine, numeric evaluation of operators.",
       assumptions=["pest 2.9 Pratt semantics as read from its source (expr loops while rbp < lbp; Left rhs rbp=prec, Right rbp=prec-1)"])
 def c09(F, R, tier):
     import c09 as mod
@@ -84,7 +84,7 @@ def c11(F, R, tier):
 
 @prop("C12",
       technique="static: symbolic evaluation of the extracted Exp printer on operator trees re-read by the extracted grammar/Pratt model; sign/abs pairing rule; float-rendering guard rule; generated-name templates vs grammar",
-      explanation="Decides (PRINT-PARSE) for the compiled-model printer Exp::to_string_with_precedence/Display/logic_operand_to_string over all parent/child operator pairs incl. abs/min/max blocks and all grandchild chains whose pairs pass; (SIGN-SPLIT) every printer that renders v.abs() chooses the sign with an exact test (a tolerant float_lt loses the sign of tiny negatives); (NUM-SPELL) every f64 rendered by Display for Exp / VariableType is guarded by an infinity test or spelled Infinity/MinusInfinity; (G-NAMES) every compiler-generated name template ($abs_n, $max_n_select_i, name__n, ...) instantiates to a string derivable from simple_variable/compound_variable with underscore_literal fragments; (OBJ-HEADER) the objective line written by Display for Objective and for LinearModel for each OptimizationType is a sentence of an alternative of the grammar rule `objective`; (T-DOMAIN-SPELL) Display for VariableType, evaluated on one representative of every class of bounds it can distinguish (-inf, negative, 0, positive, +inf), writes each infinite bound as the standard-library constant whose extracted value is that bound and the bare type name only for the default bounds; (NUM-FORMAT) as in C11, for the functions reachable from Display for Model and LinearModel. (LINEAR-ROUND-TRIP) a family of 79 LinearModel values (every coefficient class -- unit, negative, fractional, 1e-7, 1e9, zero -- at the first and at a later position, every right-hand side and relation, row-name form, offset, optimisation type, variable-name form incl. generated `$` and `__` names, every domain form, grouped declarations) is printed by the crate's Display impl evaluated from its HIR, matched by the model of pest's matcher, converted by the crate's own converters, and read back by a reference reader of plain affine text: optimisation type, objective coefficients and offset, every row's name, coefficients, relation and right-hand side and every variable's domain must be exactly those of the model. NOT decided: that the transformer and linearizer compile such plain affine text to that model (C01/C10); textual idempotence of the rendering after a full recompilation (auxiliary naming and row order belong to the compiler); finiteness of linear-model numbers (that is C08).",
+      explanation="Decides (PRINT-PARSE) for the compiled-model printer Exp::to_string_with_precedence/Display/logic_operand_to_string over all parent/child operator pairs incl. abs/min/max blocks and all grandchild chains whose pairs pass; (SIGN-SPLIT) every printer that renders v.abs() chooses the sign with an exact test (a tolerant float_lt loses the sign of tiny negatives); (NUM-SPELL) every f64 rendered by Display for Exp / VariableType is guarded by an infinity test or spelled Infinity/MinusInfinity; (G-NAMES) every compiler-generated name template ($abs_n, $max_n_select_i, name__n, ...) instantiates to a string derivable from simple_variable/compound_variable with underscore_literal fragments; (OBJ-HEADER) the objective line written by Display for Objective and for LinearModel for each OptimizationType is a sentence of an alternative of the grammar rule `objective`; (T-DOMAIN-SPELL) Display for VariableType, evaluated on one representative of every class of bounds it can distinguish (-inf, negative, 0, positive, +inf), writes each infinite bound as the standard-library constant whose extracted value is that bound and the bare type name only for the default bounds; (NUM-FORMAT) as in C11, for the functions reachable from Display for Model and LinearModel. (LINEAR-ROUND-TRIP) a family of 79 LinearModel values (every coefficient class -- unit, negative, fractional, 1e-7, 1e9, zero -- at the first and at a later position, every right-hand side and relation, row-name form, offset, optimisation type, variable-name form incl. generated `$` and `__` names, every domain form, grouped declarations) is printed by the crate's Display impl evaluated from its HIR, matched by the model of pest's matcher, converted by the crate's own converters, and read back by a reference reader of plain affine text: optimisation type, objective coefficients and offset, every row's name, coefficients, relation and right-hand side and every variable's domain must be exactly those of the model; (COMPILE-RENDER) the same reading is applied to the ~220 linear models that the emulated compile step (C01 COMPILE-EQUIV) produces, whose domains must also be non-crossed (a domain with its lower end above its upper end is rejected when the rendering is recompiled). NOT decided: that the transformer and linearizer compile such plain affine text to that model (C01/C10); textual idempotence of the rendering after a full recompilation (auxiliary naming and row order belong to the compiler); finiteness of linear-model numbers (that is C08).",
       assumptions=["pest 2.9 Pratt semantics as read from its source", "Rust's default f64 Display prints non-finite values as inf/-inf/NaN"])
 def c12(F, R, tier):
     import c12 as mod
@@ -94,6 +94,8 @@ def c12(F, R, tier):
     mod.num_format(F, R, ["<parser::model_transformer::model::Model as std::fmt::Display>::fmt", "<transformers::linear_model::LinearModel as std::fmt::Display>::fmt"])
     import c12rt
     c12rt.check(F, R, get_grammar(), tier)
+    import c01rt
+    c01rt.check_render(F, R, get_grammar(), tier)
 
 
 @prop("C15",
@@ -172,42 +174,50 @@ def c20(F, R, tier):
 
 @prop("C10",
       technique="static: symbolic evaluation of the extracted rewrite functions (typed HIR) on an exhaustive family of small expression trees, compared under an independent semantics on an exact rational grid; syntactic hazard-preservation rule; must-precede data-flow rule for normalisation",
-      explanation="Decides, for every arithmetic tree of depth <= 2 over {x, y, 0, 1, 2, -1} with + - * / and unary minus (quick: one operand of the second level a leaf; thorough: full) and a family of ~1.5k logic/n-ary trees incl. non-0/1 truthy constants and division hazards: (REWRITE-SEM) simplify, flatten and flatten+simplify, evaluated from their HIR by the table interpreter, return a tree that is defined and equal to the input wherever the input is defined, on a 9-point-per-variable exact grid (enough to decide identity of the rational functions of these degrees); (REWRITE-HAZARD) a division by zero or by a non-constant never disappears; (IDEMPOTENT) simplify(simplify(e)) = simplify(e) on the family; (T-FOLD) num_truthy / logic_number tables; (NORMALISE-FIRST) every BoundsAnalyzer::analyze call receives constraints that went through flatten().simplify(). NOT decided: trees beyond the bound, Min/Max constant folding (outside the evaluated fragment), float rounding of folded constants, equality of compiled linear models under re-spelling beyond the normalisation-order clause.")
+      explanation="Decides, for every arithmetic tree of depth <= 2 over {x, y, 0, 1, 2, -1} with + - * / and unary minus (quick: one operand of the second level a leaf; thorough: full) and a family of ~1.5k logic/n-ary trees incl. non-0/1 truthy constants and division hazards: (REWRITE-SEM) simplify, flatten and flatten+simplify, evaluated from their HIR by the table interpreter, return a tree that is defined and equal to the input wherever the input is defined, on a 9-point-per-variable exact grid (enough to decide identity of the rational functions of these degrees); (REWRITE-HAZARD) a division by zero or by a non-constant never disappears; (IDEMPOTENT) simplify(simplify(e)) = simplify(e) on the family; (T-FOLD) num_truthy / logic_number tables; (NORMALISE-FIRST) every BoundsAnalyzer::analyze call receives constraints that went through flatten().simplify(). (COMPILE-EQUIV, spellings part) two families of equivalent spellings of one constraint (a negated group written with unary minus, -1 *, 0 -, a negative divisor, or moved across the relation; a doubling written as 2*x, x*2, x+x, x/0.5, -(-2*x), 2*(x+1)) are compiled by the emulated compile step: all spellings must give the variable the same domain and the same feasible set on a grid. NOT decided: trees beyond the bound, Min/Max constant folding (outside the evaluated fragment), float rounding of folded constants, equality of compiled linear models under re-spelling beyond the normalisation-order clause.")
 def c10(F, R, tier):
     import c10 as mod
     mod.check(F, R, tier)
+    import c01rt
+    c01rt.check(F, R, tier, "C10")
 
 
 @prop("C08",
       technique="static: must-precede / dominance rules on MIR, local data-flow and who-may-write rules on typed HIR, guard/field-set agreement for big-M constants",
-      explanation="Decides (D-SORTED) the variable list handed to LinearModel::new_from_parts is the local sorted once (sort dominates construction on MIR), never mutated, derived from the unique keys of the domain marked used; the domain is filtered by membership in it and column indexes enumerate it; (D-USAGE) every Exp::Variable built in PreExp::into_exp is dominated by increment_domain_variable_usage of the same name, auxiliaries are marked used on declaration, the builder marks all; (D-FINITE) each of the 4 big-M constants built from bound end-points uses only end-points that the MissingFiniteBounds guard of the same lowering (and the same min/max arm) tests finite; (FINITE-SANITISE) a finiteness test exists between linearised expressions and the rows / objective offset; (N-NAMES) row-name de-duplication tests user and assigned names and keeps the first use, declare_variable rejects existing names, all auxiliary templates start with `$`, every name counter is incremented; (W-COEFF) LinearizationContext::add_var, which merges, is the only writer of coefficients. NOT decided: nothing numeric is needed; the D-rules follow helpers one level only.")
+      explanation="Decides (D-SORTED) the variable list handed to LinearModel::new_from_parts is the local sorted once (sort dominates construction on MIR), never mutated, derived from the unique keys of the domain marked used; the domain is filtered by membership in it and column indexes enumerate it; (D-USAGE) every Exp::Variable built in PreExp::into_exp is dominated by increment_domain_variable_usage of the same name, auxiliaries are marked used on declaration, the builder marks all; (D-FINITE) each of the 4 big-M constants built from bound end-points uses only end-points that the MissingFiniteBounds guard of the same lowering (and the same min/max arm) tests finite; (FINITE-SANITISE) a finiteness test exists between linearised expressions and the rows / objective offset; (N-NAMES) row-name de-duplication tests user and assigned names and keeps the first use, declare_variable rejects existing names, all auxiliary templates start with `$`, every name counter is incremented; (W-COEFF) LinearizationContext::add_var, which merges, is the only writer of coefficients. (COMPILE-EQUIV, well-formedness part) every linear model produced on the C01 family by the emulated compile step has sorted distinct variables, one coefficient per variable in every row and in the objective, finite numbers only, distinct non-empty row names and a domain for exactly its variables. NOT decided: nothing numeric is needed; the D-rules follow helpers one level only.")
 def c08(F, R, tier):
     import c08 as mod
     mod.check(F, R)
+    import c01rt
+    c01rt.check(F, R, tier, "C08")
 
 
 @prop("C01",
       technique="static: sign/variance typing of the requirement argument of every recursive linearize call against the post-processing applied to its result; relaxation tables evaluated over their finite domains; end-point polarity of big-M constants; dominance (apply_to_domain before construction); guard/field-set agreement",
-      explanation="PARTIAL (necessary structure). Decides (P-REQ) for each of the 19 recursive Exp::linearize calls and the helper entries: the requirement passed down equals the sign with which the returned value enters the caller's result (merge_sub / mul_by(-1) / mul_by(k) / div_by(k) tracked; `reversed`, `through_scale(k)`, `through_scale(1/k)` normalised), Exact accepted everywhere; (T-CONVEX) reversed/through_scale tables, abs exact-vs-one-sided table, (ExtremeKind, requirement)->one_sided table true only for (Max,PreferLower),(Min,PreferHigher), operand requirement table, one-sided row direction, row comparison->requirement table; (P-BIGM) big-M constants are U(aux)-L(operand) for max and U(operand)-L(aux) for min, abs factors 2L with (1-p) and 2U with p, exact rows' direction and combinator, pruning tests L(other)>=U(this) / U(other)<=L(this), sign-known abs shortcuts on L>=0 / U<=0 with the matching requirement, selectors sum to one; (D-APPLY) derived bounds are applied to the domain handed to the linearizer, declare_variable is the only writer of the domain and registers bounds too; (D-FINITE) big-M end-points are tested finite by the guard of the same arm. (T-NUM-TEMPLATES) the abs / min / max lowering arms of Exp::linearize and linearize_extreme (and the arithmetic arms that hand a requirement down: +, -, scale, division, negation) are evaluated from their HIR with the linearizer context replaced by a recorder and the bounds oracle being the crate's own BoundsAnalyzer::bounds_of over a table of variable intervals; for 13 interval classes of abs, 12 of binary min/max (dominated, overlapping, equal-fixed, half-bounded, unbounded), ternary and constant operands and 19 nested forms (abs of a sign-known or sign-unknown min/max, min/max of abs, negative scales and divisors, differences), each under the three value requirements (153 templates), the emitted rows and auxiliary domains are decided on a rational grid of operand values including non-integers: Exact -- some 0/1 selectors satisfy all rows iff the value equals f(operands); PreferLower/PreferHigher -- f(operands) stays reachable and nothing on the wrong side of it is let in; a refusal is accepted only when a needed bound is infinite; a row with a non-finite constant is rejected. NOT decided: that the rows are an exact encoding -- big-M magnitudes with the right polarity (2L vs L), ties between equal fixed operands, interplay with bound propagation, real (non-grid) points, and the logic-lowering templates (not built).")
+      explanation="PARTIAL (necessary structure). Decides (P-REQ) for each of the 19 recursive Exp::linearize calls and the helper entries: the requirement passed down equals the sign with which the returned value enters the caller's result (merge_sub / mul_by(-1) / mul_by(k) / div_by(k) tracked; `reversed`, `through_scale(k)`, `through_scale(1/k)` normalised), Exact accepted everywhere; (T-CONVEX) reversed/through_scale tables, abs exact-vs-one-sided table, (ExtremeKind, requirement)->one_sided table true only for (Max,PreferLower),(Min,PreferHigher), operand requirement table, one-sided row direction, row comparison->requirement table; (P-BIGM) big-M constants are U(aux)-L(operand) for max and U(operand)-L(aux) for min, abs factors 2L with (1-p) and 2U with p, exact rows' direction and combinator, pruning tests L(other)>=U(this) / U(other)<=L(this), sign-known abs shortcuts on L>=0 / U<=0 with the matching requirement, selectors sum to one; (D-APPLY) derived bounds are applied to the domain handed to the linearizer, declare_variable is the only writer of the domain and registers bounds too; (D-FINITE) big-M end-points are tested finite by the guard of the same arm. (T-NUM-TEMPLATES) the abs / min / max lowering arms of Exp::linearize and linearize_extreme (and the arithmetic arms that hand a requirement down: +, -, scale, division, negation) are evaluated from their HIR with the linearizer context replaced by a recorder and the bounds oracle being the crate's own BoundsAnalyzer::bounds_of over a table of variable intervals; for 13 interval classes of abs, 12 of binary min/max (dominated, overlapping, equal-fixed, half-bounded, unbounded), ternary and constant operands and 19 nested forms (abs of a sign-known or sign-unknown min/max, min/max of abs, negative scales and divisors, differences), each under the three value requirements (153 templates), the emitted rows and auxiliary domains are decided on a rational grid of operand values including non-integers: Exact -- some 0/1 selectors satisfy all rows iff the value equals f(operands); PreferLower/PreferHigher -- f(operands) stays reachable and nothing on the wrong side of it is let in; a refusal is accepted only when a needed bound is infinite; a row with a non-finite constant is rejected. (COMPILE-EQUIV, feasible-set part) the whole compile step Linearizer::linearize (normalisation, bounds analysis and write-back, every lowering, the constraint loop with logic normalisation and contradiction rows, naming, variable filtering, assembly) is evaluated from its typed HIR on a family of two-variable models (pairs of constraints drawn from 21 left-hand forms incl. cancelling and constant-only ones x relation x right-hand side, three declared boxes incl. integer and Boolean); for every point of a rational grid of the declared box the source constraints and domains hold iff some auxiliary values satisfy every row and domain of the linear model (continuous auxiliaries eliminated exactly by Fourier-Motzkin over the rationals, Boolean ones enumerated); quick ~220 models, thorough ~640. During development the emulation gave text-identical linear models to the real compiler on 300 random models of the family. NOT decided: that the rows are an exact encoding -- big-M magnitudes with the right polarity (2L vs L), ties between equal fixed operands, interplay with bound propagation, real (non-grid) points, and the logic-lowering templates (not built).")
 def c01(F, R, tier):
     import c01 as mod
     mod.check_c01(F, R)
+    import c01rt
+    c01rt.check(F, R, tier, "C01")
 
 
 @prop("C02",
       technique="static: requirement polarity typing and relaxation tables (shared with C01), objective-direction table, data-flow of the objective offset from the linearised objective into the linear model and into every solver's reported value",
-      explanation="PARTIAL. Decides P-REQ and T-CONVEX as for C01 (a wrong polarity in the objective makes the relaxed auxiliary unbounded or the optimum wrong); (T-OBJ) Min->PreferLower, Max->PreferHigher; (D-OFFSET) the constant of the linearised objective reaches LinearModel::new_from_parts unmodified together with its coefficients and the model's own direction, and every solver entry adds objective_offset (or uses calc_objective) when reporting the value, the tableau flipping the value but not the offset. (T-NUM-TEMPLATES, one-sided part) as in C01 for the PreferLower / PreferHigher requirements: on the grid the one-sided abs/min/max lowerings never let a value on the objective's good side of f(operands) in and keep f(operands) itself feasible, through negative scales, divisors and differences too. NOT decided: equality of optimal values and optimal assignments (numeric).")
+      explanation="PARTIAL. Decides P-REQ and T-CONVEX as for C01 (a wrong polarity in the objective makes the relaxed auxiliary unbounded or the optimum wrong); (T-OBJ) Min->PreferLower, Max->PreferHigher; (D-OFFSET) the constant of the linearised objective reaches LinearModel::new_from_parts unmodified together with its coefficients and the model's own direction, and every solver entry adds objective_offset (or uses calc_objective) when reporting the value, the tableau flipping the value but not the offset. (T-NUM-TEMPLATES, one-sided part) as in C01 for the PreferLower / PreferHigher requirements: on the grid the one-sided abs/min/max lowerings never let a value on the objective's good side of f(operands) in and keep f(operands) itself feasible, through negative scales, divisors and differences too. (COMPILE-EQUIV, objective part) on the same family and grid as C01: at every feasible point the best value of the linear objective over the auxiliaries (exact elimination) equals the value of the source objective. NOT decided: equality of optimal values and optimal assignments (numeric).")
 def c02(F, R, tier):
     import c01 as mod
     mod.check_c02(F, R)
+    import c01rt
+    c01rt.check(F, R, tier, "C02")
 
 
 @prop("C07",
       technique="static: end-point polarity type system over the interval constructors; forward/inverse operation tables extracted from typed HIR; field-use and who-may-write rules; loop-bound and freeze rules",
-      explanation="PARTIAL. Decides (P-IVL) every Bounds::new / struct literal in bounds.rs builds its lower end-point from lower bounds (L) or exact constants and its upper from upper bounds, under the typing rules L+L=L, U+U=U, -L=U, branch-known sign of scale factors, min/max of equal polarity, loosening by the tolerance, ceil/floor only for integer ranges, max(L,0) only for non-negative variables; (T-BOUNDSOF) each Exp form is enclosed by the interval operation of the same name, min/max fold both end-points with min/max, products and quotients only by (non-zero) literals, everything else unbounded, logic forms [0,1]; (T-INVERSE) reverse propagation uses the inverse operation with the other operand's enclosure (Add, Sub, Mul c!=0, Div d!=0, Neg, affine rows), requirement table per comparison, intersect-first; (W-REVERSE) abs and max read only required.upper, min only required.lower, logic forms tighten nothing; (W-NANFREE) no raw end-point sums outside lower_sum/upper_sum, zero factors short-circuit; (W-WRITE) only tighten_variable stores ranges and it stores the intersection; (D-FREEZE, L-STEPS) propagation stops at the step limit and on a contradiction. (T-IVL-SEM) BoundsAnalyzer::bounds_of with the Bounds arithmetic is evaluated from its typed HIR on 21 expression forms (negation, abs, sums, differences, positive / negative / zero scales and divisors, min, max, nestings) over 10 interval classes per variable (sign-known, sign-unknown, point, half-bounded, unbounded): every interval returned is well formed (no NaN, lower <= upper) and contains the form's value at every point of a rational operand grid. NOT decided: the algebra of prefix/suffix sums, float rounding of propagated bounds, the published-range soundness as a whole (numeric).")
+      explanation="PARTIAL. Decides (P-IVL) every Bounds::new / struct literal in bounds.rs builds its lower end-point from lower bounds (L) or exact constants and its upper from upper bounds, under the typing rules L+L=L, U+U=U, -L=U, branch-known sign of scale factors, min/max of equal polarity, loosening by the tolerance, ceil/floor only for integer ranges, max(L,0) only for non-negative variables; (T-BOUNDSOF) each Exp form is enclosed by the interval operation of the same name, min/max fold both end-points with min/max, products and quotients only by (non-zero) literals, everything else unbounded, logic forms [0,1]; (T-INVERSE) reverse propagation uses the inverse operation with the other operand's enclosure (Add, Sub, Mul c!=0, Div d!=0, Neg, affine rows), requirement table per comparison, intersect-first; (W-REVERSE) abs and max read only required.upper, min only required.lower, logic forms tighten nothing; (W-NANFREE) no raw end-point sums outside lower_sum/upper_sum, zero factors short-circuit; (W-WRITE) only tighten_variable stores ranges and it stores the intersection; (D-FREEZE, L-STEPS) propagation stops at the step limit and on a contradiction. (T-IVL-SEM) BoundsAnalyzer::bounds_of with the Bounds arithmetic is evaluated from its typed HIR on 21 expression forms (negation, abs, sums, differences, positive / negative / zero scales and divisors, min, max, nestings) over 10 interval classes per variable (sign-known, sign-unknown, point, half-bounded, unbounded): every interval returned is well formed (no NaN, lower <= upper) and contains the form's value at every point of a rational operand grid. (BOUNDS-SOUND) the whole analysis -- BoundsAnalyzer::analyze with AffineForm extraction, the propagation queue, forward and reverse rules, tighten_variable, the infeasibility flag -- and apply_to_domain are evaluated from their typed HIR on a family of two-variable models: single constraints and pairs drawn from 180 templates (18 left-hand forms incl. abs, min, max, nested and negatively scaled ones x relation x right-hand side) under four declared boxes (bounded, half-bounded, integer, free); on a rational grid of the declared box every point satisfying the constraints lies inside the derived range of each variable and inside the domain written back (integer rounding included), no bound is NaN, and the infeasibility flag is raised only when no grid point is feasible (quick ~1 100 models, thorough ~10 000). NOT decided: the algebra of prefix/suffix sums, float rounding of propagated bounds, the published-range soundness as a whole (numeric).")
 def c07(F, R, tier):
     import c07 as mod
-    mod.check(F, R)
+    mod.check(F, R, tier)
 
 
 @prop("C06",
